@@ -263,8 +263,8 @@ func c10GraceClamp(w *core.World, id string) []core.Result {
 	if !found {
 		out = append(out, core.Bad(id, "ORD", construct, w.Pos(fn.Pos()), "the force delete no longer sets DeleteOptions.GracePeriodSeconds"))
 	}
-	if len(w.Sites(fn, regexp.MustCompile(`^store &local<metav1\.Preconditions>\.UID = `), false)) == 0 ||
-		len(w.Sites(fn, regexp.MustCompile(`^store &local<cr/client\.DeleteOptions>\.Preconditions = &local<metav1\.Preconditions>$`), false)) == 0 {
+	if len(w.SitesOr(fn, regexp.MustCompile(`^store &local<metav1\.Preconditions>\.UID = `), false, 1)) == 0 ||
+		len(w.SitesOr(fn, regexp.MustCompile(`^store &local<cr/client\.DeleteOptions>\.Preconditions = &local<metav1\.Preconditions>$`), false, 1)) == 0 {
 		out = append(out, core.Bad(id, "ORD", construct+":uid", w.Pos(fn.Pos()), "the force delete no longer carries a UID precondition (a same-named replacement pod could be deleted)"))
 	}
 	if len(out) == 0 {
